@@ -353,7 +353,7 @@ def r4(ctx, fs):
     env.param_roles(['x_i', 'x_j'])
     env.local_role('ex_row', lambda n, i: n.get('t') == 'smt::row *' and i is not None)
     env.local_role('expr', lambda n, i: n.get('t') == 'smt::lin' and i is not None)
-    env.local_role('cf', lambda n, i: n.get('t') == 'const smt::rational' and i is not None)
+    env.local_role('cf', lambda n, i: (n.get('t') or '').replace('const ', '') == 'smt::rational' and isinstance(i, tuple) and i[0] in ('[]', 'mcall') and i[-1] == 'x_j' and 'expr' in show(i))     # the coefficient of the entering variable in the leaving row
     effs = [canon(s, env, subst=False) for s in f.nodes() if s.get('k') in ('CXXOperatorCallExpr', 'CXXMemberCallExpr', 'CXXDeleteExpr')]
     unw = False
     for n in f.nodes():
